@@ -474,6 +474,8 @@ func propC17(p *Prog, r *Report) {
 		r.Undecided("C17.d", kCleanDeleteFile, "", "not found")
 	}
 	c04WhoMay(p, r, "C17.e")
+	r.Rule("C17.g", "canonical roots: the directory registry cleans every configured root before it is used as a key, stored, or becomes a directory's Root, so that ParseDir(Dir.Path()) gives the same Root back")
+	c17RootsCanonical(p, r, "C17.g")
 	c17Clamp(p, r)
 }
 
